@@ -682,6 +682,38 @@ func runcacheCmd(args []string) error {
 		}
 		rec(nil)
 	}
+	// (a4) a run that stops part-way for a reason other than a kill: a(f0) b(a,f1) where f1 may not exist, so that a run of b
+	// executes a and then stops on b's unreadable dependency.  What a's (possibly forced) success left in the cache is then
+	// probed by edits and unforced runs.  Prefix: f0 written, a run once; then every sequence to depth 4 over 8 operations.
+	{
+		ts := []rcTask{{name: 0, lits: []int{0}}, {name: 1, lits: []int{1}, deps: []int{0}}}
+		alpha := []rcOp{
+			{kind: 'E', p: 0, c: "1"}, {kind: 'E', p: 0, c: "2"}, {kind: 'E', p: 1, c: "1"}, {kind: 'E', p: 1, c: "-"},
+			mkRun(ts, 0, false, 'S', -1), mkRun(ts, 1, false, 'S', -1), mkRun(ts, 0, true, 'S', -1), mkRun(ts, 1, true, 'S', -1),
+		}
+		depth := 4
+		if *tier == "thorough" {
+			depth = 5
+		}
+		st.Exhaustive += fmt.Sprintf("; stopped-part-way family: spokfile a(f0) b(a,f1) with f1 absent at first: every sequence of length <= %d over %d operations (two contents of f0, create/delete f1, unforced/forced run of a, of b) after one successful run of a", depth, len(alpha))
+		idx := 0
+		var rec func(prefix []rcOp)
+		rec = func(prefix []rcOp) {
+			if len(prefix) > 0 {
+				idx++
+				if idx%*nshards == *shard {
+					runHistory("exhaustive-stopped-part-way", ts, append([]rcOp{{kind: 'E', p: 0, c: "1"}, mkRun(ts, 0, false, 'S', -1)}, prefix...))
+				}
+			}
+			if len(prefix) == depth {
+				return
+			}
+			for _, o := range alpha {
+				rec(append(append([]rcOp{}, prefix...), o))
+			}
+		}
+		rec(nil)
+	}
 	// (a'') bounded-exhaustive around a kill in the middle of a multi-task run: shape "a(f0) b(a,*.dat)", the five operations
 	// that matter for "what did the tasks completed before the kill leave on disk", to depth 5
 	{
